@@ -123,11 +123,11 @@ PROPS = {
         'pairs (without / with a default field that does not occur in the query) of random trees and token sequences, field names needing quoting',
         '', []),
     'C12': P(
-        ['C12_encode_returns', 'C12_decode_encode_roundtrip', 'C12_atoi_itoa', 'C12_int_leaf_roundtrip', 'C12_string_leaf_roundtrip', 'C12_operator_names_roundtrip', 'C12_operator_names_total', 'C12_decoder_uses_from_string'],
+        ['C12_encode_returns', 'C12_decode_encode_roundtrip', 'C12_atoi_itoa', 'C12_int_leaf_roundtrip', 'C12_string_leaf_roundtrip', 'C12_operator_names_roundtrip', 'C12_operator_names_total', 'C12_decoder_uses_from_string', 'C12_parse_result_round_trips_with_all_observables'],
         [('corpus', 0), ('rand', 6000), ('trees', 2000), ('scale-digits', 0), ('scale-values', 0), ('scale-list', 0), ('scale-names', 0), ('pairs', 0)],
         [('corpus', 0), ('rand', 80000), ('trees', 30000), ('scale-digits', 0), ('scale-values', 0), ('scale-list', 0), ('scale-names', 0), ('pairs', 0)],
         PARSE + ['Marshal'] + JSONRT,
-        'encoder total; operator names round-trip; decode(encode e) = e proved for every tree of the parser shape whose leaves have the kind the decoder infers (Spec/Inferable.ki_b) under three stated facts about encoding/json, strconv and the textual boundary heuristic on the encoder own output; the syntax tree of the encoder output (Spec/Cst.v) is compared with the implementation bytes per case. Decided per accepted query by C12_check: the clauses for trees outside ki_b (identical bytes / print / SQL after the round trip when leaf kinds change: quoted patterns, integer-valued floats = K12) and that Parse results which are not listed exceptions satisfy ki_b.',
+        'encoder total; operator names round-trip; decode(encode e) = e proved for every tree of the parser shape whose leaves have the kind the decoder infers (Spec/Inferable.ki_b) under three stated facts about encoding/json, strconv and the textual boundary heuristic on the encoder own output; the syntax tree of the encoder output (Spec/Cst.v) is compared with the implementation bytes per case; and in the words of the property for every Parse result of that kind: the decoded expression validates, re-encodes to the same bytes, prints and renders identically, being the original expression. Decided per accepted query by C12_check: the clauses for trees outside ki_b (identical bytes / print / SQL after the round trip when leaf kinds change: quoted patterns, integer-valued floats = K12) and that Parse results which are not listed exceptions satisfy ki_b.',
         'every accepted generated query is encoded, decoded, re-encoded and re-rendered; non-trivial = accepted and encoded',
         '', ['oracle fact: ParseFloat rejects a text starting with a double quote']),
     'C13': P(
